@@ -226,3 +226,19 @@ claim("C17", "model_checking",
       "are written out from the language reference.",
       "z3 regex inclusion + solver-checked character abstraction + exhaustive class words on the real parser",
       "DESIGN.md 4/C17", "parsertables")
+
+claim("C13", "other",
+      "(1) The real formatting._unit_to_magnitude_and_terms runs on shadow units with unbounded symbolic prefix "
+      "and factor exponents; z3 proves on every path that the returned (magnitude, terms) denote the unit's "
+      "scale and that a magnitude appears only when the prefix exponent is not divisible by the first factor's "
+      "exponent. (2) z3 decides over the shipped terminal regexes that superscript/from_superscript are inverse "
+      "character maps, that rendered exponents lie in the exponent terminals' languages and that every "
+      "registered symbol, prefix+symbol concatenation and space-free name lies in L(SYMBOL). (3) For the finite "
+      "family prefix x unit x exponent in [-3,3] (and two-term products) the real Unit.parse(str(u)) / "
+      "Quantity.parse(str(q)) and alternative spellings are executed and compared by identity or by oracle "
+      "scale and dimension.",
+      "Layer 3 is an exhaustive concrete enumeration of a finite family (where symbol collisions are decided), "
+      "not a proof; quick tier restricts the unit list; float repr round-trip outside; factor units carry the "
+      "identity prefix (representation invariant).",
+      "symbolic execution of rendering on shadow units + z3 regex membership/inclusion + exhaustive family on the real parser",
+      "DESIGN.md 4/C13", "parsertables")
